@@ -59,7 +59,7 @@ pub fn generate(rng: &mut Rng, seed: u64, run: u64, max_len: usize) -> Trace {
         input: wl.bytes,
         ops,
         faults,
-        params: vec![("into_inner_after".into(), into_inner_after), ("resilient_client".into(), resilient)],
+        params: vec![("into_inner_after".into(), into_inner_after), ("resilient_client".into(), resilient), ("gathering_writer".into(), rng.chance(1, 2) as i64)],
         seed,
         run,
     }
@@ -434,6 +434,9 @@ pub fn execute(t: &Trace, stats: &mut Stats, record: bool) -> Outcome {
     let wa = SimWriter::new(t.faults.clone(), record);
     // lock-step reference (Never modes) gets the identical script, the mirror reference none
     let wb = SimWriter::new(if strips(mode) { t.faults.clone() } else { vec![] }, false);
+    let gather = t.param("gathering_writer") == Some(1);
+    wa.st().gather = gather;
+    wb.st().gather = gather;
     let (ha, hb) = (wa.clone(), wb.clone());
 
     let res: Result<(), Violation> = (|| {
